@@ -121,6 +121,32 @@ func (c *Ctx) readContainer(stored ssa.Value, t *Table) {
 			b, _ := constIntVal(t.Entries[j].Key)
 			return a < b
 		})
+	case *ssa.Call:
+		// var T = buildT(): the builder returns a fresh map / slice literal on its only return
+		f := x.Call.StaticCallee()
+		if f == nil || !inModule(f) || f.Blocks == nil {
+			t.Err = "table initialised by a call that cannot be resolved"
+			return
+		}
+		var ret ssa.Value
+		n := 0
+		for _, b := range f.Blocks {
+			for _, in := range b.Instrs {
+				if r, ok := in.(*ssa.Return); ok && len(r.Results) == 1 {
+					ret = r.Results[0]
+					n++
+				}
+			}
+		}
+		if n != 1 {
+			t.Err = "table builder " + fnName(f) + " has several returns"
+			return
+		}
+		if _, isCall := ret.(*ssa.Call); isCall {
+			t.Err = "table builder " + fnName(f) + " delegates to another call"
+			return
+		}
+		c.readContainer(ret, t)
 	default:
 		t.Err = fmt.Sprintf("unsupported table initialiser %T", stored)
 	}
